@@ -66,6 +66,9 @@ def scan_trusted(unit):
     return out
 
 
+MARKER_ONLY = {'C17'}
+
+
 def run_unit(uname, seed=None, rlimit=None):
     t0 = time.time()
     r = {'unit': uname}
@@ -163,11 +166,20 @@ def main(argv=None):
                 continue
             # a contract clause may be restricted to some of the function's properties:  clause, /*props:C15*/
             sp0 = d.primary()
-            if sp0 and sp0.get('text'):
-                mo = re.search(r'/\*props:([A-Z0-9,]+)\*/', sp0['text'][0]['text'])
-                if mo and pid not in mo.group(1).split(','):
-                    other_prop_fail.add(it.label)
-                    continue
+            marker_txt = sp0['text'][0]['text'] if sp0 and sp0.get('text') else ''
+            for s2 in d.secondary():
+                # the failed `requires` clause of a shim may carry the marker too (e.g. the C17 lock gate)
+                if s2.get('text'):
+                    marker_txt += ' ' + ' '.join(x['text'] for x in s2['text'])
+            mo = re.search(r'/\*props:([A-Z0-9,]+)\*/', marker_txt)
+            if mo and pid not in mo.group(1).split(','):
+                other_prop_fail.add(it.label)
+                continue
+            if pid in MARKER_ONLY and not mo:
+                # this property is carried only by clauses explicitly marked with it (the functions it tags carry other
+                # properties' obligations as well)
+                other_prop_fail.add(it.label)
+                continue
             if d.category == 'resource':
                 undecided.append('unit %s: resource limit in %s' % (uname, it.label))
                 continue
